@@ -15,6 +15,7 @@ import (
 	"github.com/csgura/fp"
 	"github.com/csgura/fp/as"
 	"github.com/csgura/fp/future"
+	"github.com/csgura/fp/hlist"
 	"github.com/csgura/fp/iterator"
 	"github.com/csgura/fp/option"
 	"github.com/csgura/fp/try"
@@ -529,6 +530,19 @@ func kinds() []*kind {
 	add("Chain3.ApFuture.Map.ApFutureFunc", 3, false, func(c *ctx, k []F) F {
 		_ = k[1]
 		return future.Chain3(as.Func3(comb3)).ApFuture(k[0]).ApFuture(k[1]).ApFutureFunc(func() F { return k[2] }, c.exec...)
+	}, m3)
+	// the last link of a chain given as a continuation (MonadChain1.FlatMap / Map / HListFlatMap): with
+	// two earlier operands failing, the first failure wins and the result does not wait for anything else
+	add("Chain3.ApFuture.ApFuture.FlatMap", 3, false, func(c *ctx, k []F) F {
+		return future.Chain3(as.Func3(comb3)).ApFuture(k[0]).ApFuture(k[1]).FlatMap(func(prev int) F { return k[2] }, c.exec...)
+	}, m3)
+	add("Chain(3).ApFuture.ApFuture.Map(last link)", 2, false, func(c *ctx, k []F) F {
+		return future.Chain3(as.Func3(comb3)).ApFuture(k[0]).ApFuture(k[1]).Map(func(prev int) int { return prev + 1 }, c.exec...)
+	}, func(c *ctx, k []func() tri) tri {
+		return inOrder(k, func(v []int) tri { return succ(comb3(v[0], v[1], v[1]+1)) })
+	})
+	add("Chain3.ApFuture.ApFuture.HListFlatMap", 3, false, func(c *ctx, k []F) F {
+		return future.Chain3(as.Func3(comb3)).ApFuture(k[0]).ApFuture(k[1]).HListFlatMap(func(h hlist.Cons[int, hlist.Cons[int, hlist.Nil]]) F { return k[2] }, c.exec...)
 	}, m3)
 	// traverse family: the element function returns kid i (already built); sequential fold
 	trav := func(c *ctx, k []func() tri) tri {
